@@ -161,6 +161,33 @@ def run_stream(ctx, dec, msgs, stream, seps, spec_base, probe=False):
             check_yields(ctx, got, want, stream, cap, spec, 'filter/' + mode + ('/hostile' if spec_base.get('hostile') else ''))
 
 
+    # non-default options that must not change what a stream of valid messages yields
+    OPTS = [dict(ignore_value_expectation=True), dict(wire_template_data=False), dict(continue_on_error=True),
+            dict(ignore_value_expectation=True, wire_template_data=False), dict(ignore_value_expectation=True, continue_on_error=True)]
+    for opts in ctx.rng.sample(OPTS, 2 if ctx.quick else 4):
+        for info_only in (False, True):
+            for use_filter in (True, False):
+                mode = 'info-only' if info_only else 'full'
+                if use_filter:
+                    expr, truth = FILTERS[ctx.rng.randrange(len(FILTERS))]
+                    want = [m.bytes for m, me in zip(msgs, metas) if truth(me)]
+                else:
+                    expr, want = None, want_all
+                oname = '+'.join(sorted(opts))
+                spec = dict(spec_base, mode=mode, filter=expr, options=opts, stream_hex=stream.hex(), n_messages=len(msgs))
+                ctx.evaluated((stream.hex(), mode, expr, oname), nontrivial)
+                ctx.count('option_variant_scans')
+                ctx.add('option_variants', oname)
+                try:
+                    got = collect(generate_bufr_message(dec, stream, info_only=info_only, filter_expr=expr, **opts), cap)
+                except Exception as e:
+                    ctx.violate('option-scan-raises:%s/%s/%s%s' % (type(e).__name__, mode, oname, '/filter' if use_filter else ''),
+                                'scanning valid messages with %r%s raised %s: %s' % (opts, ' and a filter' if use_filter else '',
+                                                                                   type(e).__name__, str(e)[:120]), spec, exc=e)
+                    continue
+                check_yields(ctx, got, want, stream, cap, spec, 'options/%s/%s%s' % (oname, mode, '/filter' if use_filter else ''))
+
+
 def split_files(ctx, msgs, stream, scratch, tag, spec):
     from mon.cli import run_cli
     path = os.path.join(scratch, 'stream_%s.bufr' % tag)
